@@ -104,7 +104,19 @@ claim("C20", "Validation",
       "The hand-written schema is trusted base (cross-checked against introspection as a warning only). Trusted: TLC, Json module.",
       "DESIGN.md §5 C20")
 
+claim("C05", "IrfIndex",
+      "TLA+ spec IrfIndex.tla: Effective(i) (broadcasting, centre - shift_i, dispersion polynomials in either variable, widths, scales, normalisation) as exact rationals enumerated by fan-out with Broadcast / IndexDependence / Linear / PerIndex / Asymptote invariants; every configuration replayed: irf.parameter vs Effective(i), index-dependent decay matrix vs the implementation's own index-independent matrix at Effective(i), linearity in the Gaussians, asymptotes before/after the pulse",
+      "Decides the per-index clause of the property (its second sentence) exhaustively over 1-3 Gaussians x broadcast shapes x shift x centre/width dispersion order 0-3 x dispersion variable x normalise, plus linearity, normalisation and the asymptotic regime.",
+      "NOT decided: equality with the convolution integral for |t - c| <~ 7w, the branch switch and under/overflow regimes (special functions; DESIGN §6). Trusted: TLC, elementary-function interpreter (exp only).",
+      "DESIGN.md §5 C05")
+claim("C07", "Basis",
+      "TLA+ spec Basis.tla (extends IrfIndex): oscillation / PFID / artifact / spectral-shape case space with OscFacts, RegionFacts, SharedPosition, ArtifactFacts, ShapeFacts invariants; every case replayed with an elementary-function interpreter (exp, cos, sin, log): quadrature columns, zero/tail regions with one constant, shared effective IRF position (differential against the implementation's own plain-IRF matrices), artifact derivatives, shape facts and continuity in skewness",
+      "Decides quadrature pairing and sign, before/after-pulse behaviour, the shared effective position of decay / artifact / oscillation / PFID per index, artifact closed forms, spectral shape facts incl. theta <= 0 and skewness -> 0.",
+      "NOT decided: proportionality to the convolution inside the pulse (complex error function; DESIGN §6). Two recorded findings (frequency folding, NaN inside the pulse). Trusted: TLC, elementary-function interpreter.",
+      "DESIGN.md §5 C07")
+
 ENGINES = [
+    {"name": "IrfIndex", "path": "spec/IrfIndex.tla", "serves_properties": ["C05", "C07"], "kind_free_text": "TLA+ IrfIndex.tla(+Emit), Basis.tla(+Emit); harness/c05.py, c07.py, drivers_irf.py"},
     {"name": "Optimizer", "path": "spec/Optimizer.tla", "serves_properties": ["C10", "C15"], "kind_free_text": "TLA+ life-cycle + purity state machine, OptimizerEmit, OptimizerWalk, OptimizerTrace; harness/c10*.py, c15*.py"},
     {"name": "ParamTransform", "path": "spec/ParamTransform.tla", "serves_properties": ["C11"], "kind_free_text": "TLA+ ParamTransform.tla, Fit.tla, FitTrace.tla; harness/c11*.py"},
     {"name": "ParamExpr", "path": "spec/ParamExpr.tla", "serves_properties": ["C12"], "kind_free_text": "TLA+ ParamExpr.tla, ParamExprEmit, ParamExprSim; harness/c12.py"},
